@@ -55,6 +55,7 @@ func main() {
 	replay := flag.String("replay", "", "replay file: re-evaluate that obligation's property and print the obligation")
 	selfcheck := flag.Bool("selfcheck", false, "run the seeded-break self-validation for the property")
 	list := flag.Bool("list", false, "list obligations with verdicts")
+	bnd := flag.String("bounds", "", "evaluate the bounds obligations of module functions whose key contains this string")
 	dump := flag.String("dump", "", "print the SSA of module functions whose key contains this string")
 	flag.Parse()
 	if *tier == "" {
@@ -64,6 +65,10 @@ func main() {
 		*tier = "quick"
 	}
 	seed, _ := strconv.ParseInt(os.Getenv("VERIF_SEED"), 10, 64)
+	if *bnd != "" {
+		dumpBounds(*repo, *bnd)
+		return
+	}
 	if *dump != "" {
 		dumpFuncs(*repo, *dump)
 		return
